@@ -2792,4 +2792,318 @@ theorem mpn_scan0_correct (u : List Nat) (hu : Limbs u) (start : Nat)
     exact ⟨r, rfl, s1, s4, by rw [hv _ s1 s4, s2]; rfl,
       fun j h1 h2 => by rw [hv _ h1 (by omega), s3 j h1 h2]; rfl⟩
 
+/-- xor and bit count split at a power of two -/
+theorem xor_split (k x y p q : Nat) (hx : x < 2 ^ k) (hy : y < 2 ^ k) :
+    (x + 2 ^ k * p) ^^^ (y + 2 ^ k * q) = (x ^^^ y) + 2 ^ k * (p ^^^ q) :=
+  bitwise_split bne rfl k x y p q hx hy
+
+theorem popcount_xor_split (k x y p q : Nat) (hx : x < 2 ^ k) (hy : y < 2 ^ k) :
+    popcount ((x + 2 ^ k * p) ^^^ (y + 2 ^ k * q)) = popcount (x ^^^ y) + popcount (p ^^^ q) := by
+  rw [xor_split k x y p q hx hy, popcount_split k _ _ (Nat.xor_lt_two_pow hx hy)]
+
+theorem popcount_xor_split_B (x y p q : Nat) (hx : x < B) (hy : y < B) :
+    popcount ((x + B * p) ^^^ (y + B * q)) = popcount (x ^^^ y) + popcount (p ^^^ q) := by
+  unfold B at *; exact popcount_xor_split 64 x y p q hx hy
+
+/-- complementing the low `k` bits -/
+theorem popcount_compl (k : Nat) : ∀ x, x < 2 ^ k → popcount (x ^^^ (2 ^ k - 1)) + popcount x = k := by
+  induction k with
+  | zero => intro x hx; have : x = 0 := by simpa using hx
+            subst this; simp [popcount_zero]
+  | succ k ih =>
+    intro x hx
+    have hx2 : x / 2 < 2 ^ k := by rw [pow_succ] at hx; omega
+    have hpos := Nat.two_pow_pos k
+    have e1 : (2 ^ (k + 1) - 1) / 2 = 2 ^ k - 1 := by rw [pow_succ]; omega
+    have e2 : (2 ^ (k + 1) - 1) % 2 = 1 := by rw [pow_succ]; omega
+    have hm : (x ^^^ (2 ^ (k + 1) - 1)) % 2 = 1 - x % 2 := by
+      have := @Nat.xor_mod_two_eq_one x (2 ^ (k + 1) - 1)
+      rw [e2] at this
+      rcases Nat.mod_two_eq_zero_or_one x with h0 | h0
+      · have : (x ^^^ (2 ^ (k + 1) - 1)) % 2 = 1 := this.mpr (by simp [h0])
+        omega
+      · have hne : ¬ ((x ^^^ (2 ^ (k + 1) - 1)) % 2 = 1) := fun h => (this.mp h) (by simp [h0])
+        have := Nat.mod_two_eq_zero_or_one (x ^^^ (2 ^ (k + 1) - 1))
+        omega
+    rw [popcount_step (x ^^^ (2 ^ (k + 1) - 1)), popcount_step x, Nat.xor_div_two, e1, hm]
+    have := ih (x / 2) hx2
+    have := Nat.mod_two_eq_zero_or_one x
+    omega
+
+theorem lnotL_eq_xor (y : Nat) (hy : y < B) : lnotL y = y ^^^ (B - 1) := by
+  apply Nat.eq_of_testBit_eq; intro i
+  rw [testBit_lnotL y hy, Nat.testBit_xor, testBit_ones]
+  by_cases hi : i < 64
+  · simp [hi]
+  · simp [hi, testBit_limb_high hy (by omega : 64 ≤ i)]
+
+theorem lnotL_xor_lnotL (p q : Nat) (hp : p < B) (hq : q < B) : lnotL p ^^^ lnotL q = p ^^^ q := by
+  rw [lnotL_eq_xor p hp, lnotL_eq_xor q hq]
+  rw [Nat.xor_assoc, Nat.xor_comm q, ← Nat.xor_assoc (B - 1), Nat.xor_self, Nat.zero_xor]
+
+theorem negL_eq_lnot' (d : Nat) (hd : d < B) (h1 : d ≠ 0) : negL d = lnotL (d - 1) := by
+  rw [negL_eq_lnot d hd h1, pred_mod_B d hd h1]
+
+/-- hamdist.c:137-162 -/
+theorem hamTail_eq (up vp : List Nat) (hu : Limbs up) (hv : Limbs vp) :
+    hamTail up vp = popcount (val up ^^^ val vp) := by
+  unfold hamTail
+  simp only
+  have hx := zipWith_val limbOp_xor up vp hu hv
+  change val up ^^^ val vp = val (xor_n up vp) + _ * (_ ^^^ _) ∧ Limbs (xor_n up vp) at hx
+  obtain ⟨e, l⟩ := hx
+  have hlen : (xor_n up vp).length = min up.length vp.length := by simp [xor_n]
+  have hlt := val_lt _ l
+  rw [hlen, B_pow] at hlt
+  rw [e, B_pow, popcount_split _ _ _ hlt, ← mpn_popcount_eq _ l]
+  have hham : mpn_hamdist (up.take (min up.length vp.length)) (vp.take (min up.length vp.length)) =
+      mpn_popcount (xor_n up vp) := by
+    unfold mpn_hamdist mpn_popcount xor_n
+    rw [← zipWith_take_min]
+  have hc : (if min up.length vp.length ≠ 0 then
+      mpn_hamdist (up.take (min up.length vp.length)) (vp.take (min up.length vp.length)) else 0) =
+      mpn_popcount (xor_n up vp) := by
+    by_cases h0 : min up.length vp.length ≠ 0
+    · rw [if_pos h0, hham]
+    · rw [if_neg h0]
+      have : xor_n up vp = [] := List.eq_nil_of_length_eq_zero (by rw [hlen]; omega)
+      rw [this]; rfl
+  rw [hc]
+  by_cases hl : up.length ≤ vp.length
+  · have hmin : min up.length vp.length = up.length := by omega
+    have hdu : up.drop vp.length = [] := List.drop_of_length_le hl
+    rw [hmin, List.drop_of_length_le (le_refl up.length), hdu]
+    simp only [List.length_nil, ne_eq, not_true_eq_false, if_false, val_nil, Nat.zero_xor]
+    by_cases hv0 : (vp.drop up.length).length ≠ 0
+    · rw [if_pos hv0, mpn_popcount_eq _ (Limbs_drop hv _)]
+    · rw [if_neg hv0]
+      have : vp.drop up.length = [] := List.eq_nil_of_length_eq_zero (by omega)
+      rw [this]; simp [popcount_zero]
+  · have hmin : min up.length vp.length = vp.length := by omega
+    have hdv : vp.drop up.length = [] := List.drop_of_length_le (by omega)
+    rw [hmin, hdv]
+    simp only [val_nil, Nat.xor_zero]
+    have hu0 : (up.drop vp.length).length ≠ 0 := by rw [List.length_drop]; omega
+    rw [if_pos hu0, mpn_popcount_eq _ (Limbs_drop hu _)]
+
+theorem val_take_zero : ∀ (l : List Nat) (k : Nat), (∀ j, j < k → l.getD j 0 = 0) → val (l.take k) = 0
+  | [], k, _ => by simp
+  | x :: xs, 0, _ => by simp
+  | x :: xs, k + 1, h => by
+    have h0 : x = 0 := by simpa using h 0 (by omega)
+    have ih := val_take_zero xs k (fun j hj => by simpa using h (j + 1) (by omega))
+    simp [h0, ih]
+
+theorem val_zero_of_all_zero (l : List Nat) (h : ∀ j, l.getD j 0 = 0) : val l = 0 := by
+  have := val_take_zero l l.length (fun j _ => h j)
+  rwa [List.take_length] at this
+
+/-- split of `up` at the `k` limbs that face the low zero limbs of `v` (hamdist.c:114-123) -/
+theorem split_min (up : List Nat) (hu : Limbs up) (k : Nat) :
+    val up = val (up.take (min k up.length)) + B ^ k * val (up.drop (min k up.length)) ∧
+    val (up.take (min k up.length)) < B ^ k := by
+  by_cases hk : k ≤ up.length
+  · rw [Nat.min_eq_left hk]
+    have hlt := val_lt _ (Limbs_take hu k)
+    rw [List.length_take, Nat.min_eq_left hk] at hlt
+    exact ⟨val_take_drop up k hk, hlt⟩
+  · rw [Nat.min_eq_right (by omega), List.take_length, List.drop_of_length_le (le_refl _)]
+    have hlt := val_lt _ hu
+    have : B ^ up.length ≤ B ^ k := Nat.pow_le_pow_right B_pos (by omega)
+    exact ⟨by simp, lt_of_lt_of_le hlt this⟩
+
+theorem popc_xor_limbs (p q : Nat) (hp : p < B) (hq : q < B) : popc (p ^^^ q) = popcount (p ^^^ q) :=
+  popc_eq _ (by unfold B at *; exact Nat.xor_lt_two_pow hp hq)
+
+theorem hamBody_eq (ul vl : Nat) (up vp : List Nat) (hul : ul < B) (hul0 : ul ≠ 0) (hvl : vl < B)
+    (hu : Limbs up) (hv : Limbs vp) (h1 : 1 ≤ vl + B * val vp) :
+    hamBody ul vl up vp = popcount ((ul + B * val up - 1) ^^^ (vl + B * val vp - 1)) := by
+  have hul1 : ul - 1 < B := by omega
+  have eU : ul + B * val up - 1 = (ul - 1) + B * val up := by omega
+  unfold hamBody
+  simp only
+  by_cases hv0 : vl = 0
+  · subst hv0
+    have hneg0 : negL 0 = 0 := by simp [negL]
+    rw [hneg0, if_pos rfl, Nat.xor_zero]
+    have hBv : 1 ≤ val vp := by
+      rcases Nat.eq_zero_or_pos (val vp) with h | h
+      · rw [h] at h1; simp at h1
+      · exact h
+    have hsz := skipZero_spec vp 0
+    cases hs : skipZero vp 0 with
+    | none =>
+      rw [hs] at hsz; simp only at hsz
+      rw [val_zero_of_all_zero vp hsz] at hBv; omega
+    | some q =>
+      obtain ⟨i, vl1⟩ := q
+      rw [hs] at hsz; simp only at hsz ⊢
+      obtain ⟨k, e1, e2, e3, e4, e5⟩ := hsz
+      have hik : i = k := by omega
+      subst hik
+      have hvl1 : vl1 < B := by rw [← e3]; exact getD_lt hv i
+      -- value of vp
+      have hvp : val vp = B ^ i * (vl1 + B * val (vp.drop (i + 1))) := by
+        rw [val_split_at vp i e2, val_take_zero vp i e5, e3, Nat.zero_add]
+      obtain ⟨hA, hAlo⟩ := split_min up hu i
+      have hp := pow_B_pos i
+      -- the count after the subtraction
+      have hsub : (if min i up.length ≠ 0 then popc (negL ul) + i * 64 - mpn_popcount (up.take (min i up.length))
+          else popc (negL ul) + i * 64) = popc (negL ul) + i * 64 - popcount (val (up.take (min i up.length))) := by
+        by_cases hm : min i up.length ≠ 0
+        · rw [if_pos hm, mpn_popcount_eq _ (Limbs_take hu _)]
+        · rw [if_neg hm]
+          have : min i up.length = 0 := by omega
+          rw [this]; simp [popcount_zero]
+      rw [hsub]
+      -- target
+      have eV : 0 + B * val vp - 1 = (B - 1) + B * (val vp - 1) := by
+        have := pred_at_zb B 1 (val vp - 1) B_pos (le_refl 1)
+        have hB := B_pos
+        obtain ⟨w, hw⟩ : ∃ w, val vp = w + 1 := ⟨val vp - 1, by omega⟩
+        rw [hw, Nat.zero_add, Nat.mul_succ]; simp; omega
+      rw [eU, eV, popcount_xor_split_B _ _ _ _ hul1 (by have := B_pos; omega)]
+      have ec0 : popc (negL ul) = popcount ((ul - 1) ^^^ (B - 1)) := by
+        rw [negL_eq_lnot' ul hul hul0, lnotL_eq_xor _ hul1]
+        exact popc_xor_limbs _ _ hul1 (by have := B_pos; omega)
+      rw [ec0]
+      -- the part above limb 0
+      have eBv : val vp - 1 = (B ^ i - 1) + B ^ i * ((vl1 - 1) + B * val (vp.drop (i + 1))) := by
+        rw [hvp]; exact pred_at_zb _ _ _ hp (Nat.pos_of_ne_zero e4)
+      have hsplit : popcount (val up ^^^ (val vp - 1)) =
+          popcount (val (up.take (min i up.length)) ^^^ (B ^ i - 1)) +
+          popcount (val (up.drop (min i up.length)) ^^^ ((vl1 - 1) + B * val (vp.drop (i + 1)))) := by
+        conv_lhs => rw [hA, eBv]
+        rw [B_pow] at *
+        exact popcount_xor_split _ _ _ _ _ hAlo (by omega)
+      have hcompl := popcount_compl (64 * i) (val (up.take (min i up.length))) (by rw [← B_pow]; exact hAlo)
+      rw [← B_pow] at hcompl
+      rw [hsplit]
+      -- the limb facing the first non-zero limb of v, and the tails
+      have hdl := Limbs_drop hu (min i up.length)
+      generalize hcnt : popcount ((ul - 1) ^^^ (B - 1)) = c0 at *
+      generalize popcount (val (up.take (min i up.length))) = pa at *
+      generalize popcount (val (up.take (min i up.length)) ^^^ (B ^ i - 1)) = pc at *
+      generalize up.drop (min i up.length) = dl at *
+      cases dl with
+      | nil =>
+        simp only [val_nil, Nat.zero_xor]
+        rw [hamTail_eq [] _ Limbs_nil (Limbs_drop hv _), val_nil, Nat.zero_xor, popc_eq _ (by omega)]
+        have : popcount (vl1 - 1 + B * val (vp.drop (i + 1))) =
+            popcount (vl1 - 1) + popcount (val (vp.drop (i + 1))) := by
+          unfold B at *; exact popcount_split 64 _ _ (by omega)
+        rw [this]; omega
+      | cons x xs =>
+        have ⟨hx, hxs⟩ := Limbs_cons.mp hdl
+        simp only [val_cons]
+        rw [hamTail_eq xs _ hxs (Limbs_drop hv _), popcount_xor_split_B _ _ _ _ hx (by omega),
+          popc_xor_limbs _ _ (by omega) hx, Nat.xor_comm x]
+        omega
+  · have hnv : negL vl ≠ 0 := (negL_pos vl hvl hv0).1
+    rw [if_neg hnv]
+    have hvl1 : vl - 1 < B := by omega
+    have eV : vl + B * val vp - 1 = (vl - 1) + B * val vp := by omega
+    rw [eU, eV, popcount_xor_split_B _ _ _ _ hul1 hvl1, hamTail_eq up vp hu hv,
+      negL_eq_lnot' ul hul hul0, negL_eq_lnot' vl hvl hv0, lnotL_xor_lnotL _ _ hul1 hvl1,
+      popc_xor_limbs _ _ hul1 hvl1]
+theorem hamLong_eq (up vp : List Nat) (hu : Limbs up) (hv : Limbs vp) (hl : vp.length ≤ up.length) :
+    hamLong up vp = popcount (val up ^^^ val vp) := by
+  obtain ⟨e, l, _⟩ := zip_long_left limbOp_xor rfl up vp hu hv hl
+  change val (xor_n up vp ++ _) = _ ^^^ _ at e
+  have l' : Limbs (xor_n up vp ++ up.drop vp.length) := l
+  rw [← e, ← mpn_popcount_eq _ l', mpn_popcount_append]
+  unfold hamLong
+  simp only
+  have hc : (if vp.length ≠ 0 then mpn_hamdist up vp else 0) = mpn_popcount (xor_n up vp) := by
+    by_cases h0 : vp.length ≠ 0
+    · rw [if_pos h0]; rfl
+    · rw [if_neg h0]
+      have : vp = [] := List.eq_nil_of_length_eq_zero (by omega)
+      rw [this]; simp [xor_n, mpn_popcount]
+  rw [hc]
+  by_cases hd : (up.drop vp.length).length ≠ 0
+  · rw [if_pos hd]
+  · rw [if_neg hd]
+    have : up.drop vp.length = [] := List.eq_nil_of_length_eq_zero (by omega)
+    rw [this]; simp [mpn_popcount]
+
+theorem pos_of_mul_pos {A : Nat} (h : 1 ≤ 0 + B * A) : 1 ≤ A := by
+  rcases Nat.eq_zero_or_pos A with h0 | h0
+  · subst h0; simp at h
+  · exact h0
+
+theorem hamSkip_spec : ∀ (u v : List Nat), Limbs u → Limbs v → 1 ≤ val u → 1 ≤ val v →
+    ∃ ul vl up vp, hamSkip u v = some (ul, vl, up, vp) ∧ ul ≠ 0 ∧ ul < B ∧ vl < B ∧ Limbs up ∧ Limbs vp ∧
+      1 ≤ vl + B * val vp ∧
+      popcount ((val u - 1) ^^^ (val v - 1)) = popcount ((ul + B * val up - 1) ^^^ (vl + B * val vp - 1))
+  | [], _, _, _, h, _ => by simp at h
+  | _ :: _, [], _, _, _, h => by simp at h
+  | x :: xs, y :: ys, hu, hv, h1, h2 => by
+    have ⟨hx, hxs⟩ := Limbs_cons.mp hu
+    have ⟨hy, hys⟩ := Limbs_cons.mp hv
+    unfold hamSkip
+    by_cases hx0 : x ≠ 0
+    · rw [if_pos hx0]
+      exact ⟨x, y, xs, ys, rfl, hx0, hx, hy, hxs, hys, h2, rfl⟩
+    · rw [if_neg hx0]
+      have hx0' : x = 0 := by simpa using hx0
+      by_cases hy0 : y ≠ 0
+      · rw [if_pos hy0]
+        refine ⟨y, 0, ys, xs, rfl, hy0, hy, B_pos, hys, hxs, by rw [← hx0']; exact h1, ?_⟩
+        rw [Nat.xor_comm]; simp only [val_cons, hx0']
+      · rw [if_neg hy0]
+        have hy0' : y = 0 := by simpa using hy0
+        subst hx0' hy0'
+        simp only [val_cons] at h1 h2 ⊢
+        have hA := pos_of_mul_pos h1
+        have hC := pos_of_mul_pos h2
+        obtain ⟨ul, vl, up, vp, e, r1, r2, r3, r4, r5, r6, r7⟩ := hamSkip_spec xs ys hxs hys hA hC
+        refine ⟨ul, vl, up, vp, e, r1, r2, r3, r4, r5, r6, ?_⟩
+        rw [← r7]
+        have hB := B_pos
+        have e1 : 0 + B * val xs - 1 = (B - 1) + B * (val xs - 1) := by
+          obtain ⟨w, hw⟩ : ∃ w, val xs = w + 1 := ⟨val xs - 1, by omega⟩
+          rw [hw, Nat.zero_add, Nat.mul_succ]; simp; omega
+        have e2 : 0 + B * val ys - 1 = (B - 1) + B * (val ys - 1) := by
+          obtain ⟨w, hw⟩ : ∃ w, val ys = w + 1 := ⟨val ys - 1, by omega⟩
+          rw [hw, Nat.zero_add, Nat.mul_succ]; simp; omega
+        rw [e1, e2, popcount_xor_split_B _ _ _ _ (by omega) (by omega), Nat.xor_self, popcount_zero,
+          Nat.zero_add]
+
+theorem mpz_hamdist_eq (u v : Z) (hu : u.WF) (hv : v.WF) :
+    mpz_hamdist u v = specHamdist u.toInt v.toInt := by
+  unfold mpz_hamdist specHamdist
+  cases hnu : u.neg <;> cases hnv : v.neg <;>
+    simp only [Bool.not_false, Bool.not_true, Bool.false_eq_true, ↓reduceIte]
+  · rw [toInt_nonneg u hnu, toInt_nonneg v hnv]
+    have hd1 : ¬ (Int.ofNat (val u.mag) < 0) := by simp
+    have hd2 : ¬ (Int.ofNat (val v.mag) < 0) := by simp
+    have hne : ¬ (decide (Int.ofNat (val u.mag) < 0) ≠ decide (Int.ofNat (val v.mag) < 0)) := by
+      rw [decide_eq_false hd1, decide_eq_false hd2]; simp
+    rw [if_neg hne]
+    change _ = popcount (val u.mag ^^^ val v.mag)
+    by_cases hl : u.mag.length < v.mag.length
+    · rw [if_pos hl, hamLong_eq v.mag u.mag hv.limbs hu.limbs (by omega), Nat.xor_comm]
+    · rw [if_neg hl, hamLong_eq u.mag v.mag hu.limbs hv.limbs (by omega)]
+  · rw [toInt_nonneg u hnu, toInt_neg v hnv (hv.pos hnv)]
+    have hd1 : ¬ (Int.ofNat (val u.mag) < 0) := by simp
+    have hne : decide (Int.ofNat (val u.mag) < 0) ≠ decide (Int.negSucc (val v.mag - 1) < 0) := by
+      rw [decide_eq_false hd1, decide_eq_true (Int.negSucc_lt_zero _)]; simp
+    rw [if_pos hne]
+  · rw [toInt_neg u hnu (hu.pos hnu), toInt_nonneg v hnv]
+    have hd1 : ¬ (Int.ofNat (val v.mag) < 0) := by simp
+    have hne : decide (Int.negSucc (val u.mag - 1) < 0) ≠ decide (Int.ofNat (val v.mag) < 0) := by
+      rw [decide_eq_false hd1, decide_eq_true (Int.negSucc_lt_zero _)]; simp
+    rw [if_pos hne]
+  · rw [toInt_neg u hnu (hu.pos hnu), toInt_neg v hnv (hv.pos hnv)]
+    have hne : ¬ (decide (Int.negSucc (val u.mag - 1) < 0) ≠ decide (Int.negSucc (val v.mag - 1) < 0)) := by
+      rw [decide_eq_true (Int.negSucc_lt_zero _), decide_eq_true (Int.negSucc_lt_zero _)]; simp
+    rw [if_neg hne]
+    change _ = popcount ((val u.mag - 1) ^^^ (val v.mag - 1))
+    obtain ⟨ul, vl, up, vp, e, r1, r2, r3, r4, r5, r6, r7⟩ :=
+      hamSkip_spec u.mag v.mag hu.limbs hv.limbs (hu.pos hnu) (hv.pos hnv)
+    unfold hamNN
+    rw [e]; simp only
+    rw [hamBody_eq ul vl up vp r2 r1 r3 r4 r5 r6, r7]
+
 end Mpir.Bits
